@@ -363,7 +363,7 @@ func (w *cluWorld) execOp(ctx context.Context, op cluOp, plan map[string]int, re
 	switch op.Kind {
 	case "create":
 		opts := w.deployOpts(op)
-		w.apps[op.App+"/"+op.Entry] = true
+		w.setFlag(w.apps, op.App+"/"+op.Entry, true)
 		ch, err := cal.CreateWorkload(ctx, opts)
 		if err != nil {
 			out.err, out.failed = err, true
@@ -444,7 +444,7 @@ func (w *cluWorld) execOp(ctx context.Context, op cluOp, plan map[string]int, re
 				got[m.WorkloadID] = true
 				if m.Error == nil {
 					out.okIDs = append(out.okIDs, m.WorkloadID)
-					w.dissociated[m.WorkloadID] = true
+					w.setFlag(w.dissociated, m.WorkloadID, true)
 				} else {
 					out.failIDs = append(out.failIDs, m.WorkloadID)
 				}
@@ -479,7 +479,7 @@ func (w *cluWorld) execOp(ctx context.Context, op cluOp, plan map[string]int, re
 		wl := pre.Workloads[id]
 		app, entry, _ := parseName(wl.Name)
 		opts := &coretypes.ReplaceOptions{DeployOptions: coretypes.DeployOptions{Name: app, Entrypoint: &coretypes.Entrypoint{Name: entry}, Podname: wl.Podname, Image: "img2", Count: 1, IgnorePull: true}, IDs: []string{id}}
-		w.apps[app+"/"+entry] = true
+		w.setFlag(w.apps, app+"/"+entry, true)
 		ch, err := cal.ReplaceWorkload(ctx, opts)
 		if err != nil {
 			out.err, out.failed, out.failIDs = err, true, []string{id}
@@ -528,14 +528,14 @@ func (w *cluWorld) execOp(ctx context.Context, op cluOp, plan map[string]int, re
 		for m := range ch {
 			if m.Error == nil {
 				if op.Ctl == "stop" {
-					w.stoppedByOp[m.WorkloadID] = true
+					w.setFlag(w.stoppedByOp, m.WorkloadID, true)
 				} else {
-					delete(w.stoppedByOp, m.WorkloadID)
+					w.setFlag(w.stoppedByOp, m.WorkloadID, false)
 				}
 			} else {
 				out.failed = true
 				// a failed stop/restart may have stopped the container: that is the op's own (reported) effect on run state
-				w.stoppedByOp[m.WorkloadID] = true
+				w.setFlag(w.stoppedByOp, m.WorkloadID, true)
 			}
 		}
 	case "node_resource":
